@@ -1,0 +1,374 @@
+//go:build verif
+
+// Contracts for package slice, read by /verif's verifier (fovc).  Comment-only: with the build tag
+// off this file does not exist for the compiler, with it on it adds no code.
+//
+// Properties: C12 (no call changes an existing slice value: strong frame + write discipline),
+// C13 (each function computes its F#-List-style specification), stated over the abstract view
+// len(s), s[i] of a slice.  Callbacks are total pure functions f(x) with a ghost call trace
+// calls(f), arg(f,k).
+
+package slice
+
+//@ mode slices=heap strings=smt
+
+//@ func Length
+//@   props C12 C13
+//@   panics never
+//@   returns len(s)
+//@   ensures C12 frame: frame()
+
+//@ func Len
+//@   props C12 C13
+//@   panics never
+//@   returns len(s)
+//@   ensures C12 frame: frame()
+
+//@ func New
+//@   props C12 C13
+//@   panics never
+//@   ensures C13 empty: len(result) == 0
+//@   ensures C13 nonnil: result.arr != 0
+//@   ensures C12 fresh: fresh(result)
+//@   ensures C12 frame: frame()
+
+//@ func Item
+//@   props C12 C13
+//@   panics iff !(0 <= index && index < len(s))
+//@   returns old(s[index])
+//@   ensures C12 frame: frame()
+
+//@ func IsEmpty
+//@   props C12 C13
+//@   panics never
+//@   returns len(a) == 0
+//@   ensures C12 frame: frame()
+
+//@ func IsNotEmpty
+//@   props C12 C13
+//@   panics never
+//@   returns len(a) != 0
+//@   ensures C12 frame: frame()
+
+//@ func Last
+//@   props C12 C13
+//@   panics iff len(s) == 0
+//@   returns old(s[len(s)-1])
+//@   ensures C12 frame: frame()
+
+//@ func Head
+//@   props C12 C13
+//@   panics iff len(s) == 0
+//@   returns old(s[0])
+//@   ensures C12 frame: frame()
+
+//@ func Tail
+//@   props C12 C13
+//@   panics iff len(s) == 0
+//@   ensures C13 len: len(result) == len(s) - 1
+//@   ensures C13 elems: forall k int :: 0 <= k && k < len(s) - 1 ==> result[k] == old(s[k+1])
+//@   ensures C12 frame: frame()
+
+//@ func PopLast
+//@   props C12 C13
+//@   panics iff len(s) == 0
+//@   ensures C13 len: len(result) == len(s) - 1
+//@   ensures C13 elems: forall k int :: 0 <= k && k < len(s) - 1 ==> result[k] == old(s[k])
+//@   ensures C12 frame: frame()
+
+//@ func Take
+//@   props C12 C13
+//@   requires C13 domain: 0 <= num && num <= len(s)
+//@   panics never
+//@   ensures C13 len: len(result) == num
+//@   ensures C13 elems: forall k int :: 0 <= k && k < num ==> result[k] == old(s[k])
+//@   ensures C12 frame: frame()
+//@   ensures C12 fresh: fresh(result)
+//@   loop 0:
+//@     invariant bounds: 0 <= i && i <= num
+//@     invariant len: len(res) == i
+//@     invariant elems: forall k int :: 0 <= k && k < i ==> res[k] == old(s[k])
+//@     invariant fresh: fresh(res)
+//@     invariant frame: frame()
+//@     decreases num - i
+
+//@ func Skip
+//@   props C12 C13
+//@   requires C13 domain: 0 <= count && count <= len(s)
+//@   panics never
+//@   ensures C13 len: len(result) == len(s) - count
+//@   ensures C13 elems: forall k int :: 0 <= k && k < len(s) - count ==> result[k] == old(s[count + k])
+//@   ensures C12 frame: frame()
+//@   ensures C12 fresh: fresh(result)
+//@   loop 0:
+//@     invariant bounds: count <= i && i <= len(s)
+//@     invariant len: len(res) == i - count
+//@     invariant elems: forall k int :: 0 <= k && k < i - count ==> res[k] == old(s[count + k])
+//@     invariant fresh: fresh(res)
+//@     invariant frame: frame()
+//@     decreases len(s) - i
+
+//@ func Map
+//@   props C12 C13
+//@   panics never
+//@   ensures C13 len: len(result) == len(s)
+//@   ensures C13 elems: forall k int :: 0 <= k && k < len(s) ==> result[k] == f(old(s[k]))
+//@   ensures C13 order: calls(f) == old(calls(f)) + len(s)
+//@   ensures C13 order-args: forall k int :: 0 <= k && k < len(s) ==> arg(f, old(calls(f)) + k) == old(s[k])
+//@   ensures C12 frame: frame()
+//@   ensures C12 fresh: fresh(result)
+//@   loop 0 index i:
+//@     invariant len: len(res) == i
+//@     invariant elems: forall k int :: 0 <= k && k < i ==> res[k] == f(old(s[k]))
+//@     invariant calls: calls(f) == old(calls(f)) + i
+//@     invariant args: forall k int :: 0 <= k && k < i ==> arg(f, old(calls(f)) + k) == old(s[k])
+//@     invariant fresh: fresh(res)
+//@     invariant frame: frame()
+
+//@ func PushLast
+//@   props C12 C13
+//@   panics never
+//@   ensures C13 len: len(result) == len(s) + 1
+//@   ensures C13 prefix: forall k int :: 0 <= k && k < len(s) ==> result[k] == old(s[k])
+//@   ensures C13 last: result[len(s)] == elem
+//@   ensures C12 frame: frame()
+
+//@ func Mapi
+//@   props C12 C13
+//@   panics never
+//@   ensures C13 len: len(result) == len(s)
+//@   ensures C13 elems: forall k int :: 0 <= k && k < len(s) ==> result[k] == f(k, old(s[k]))
+//@   ensures C13 order: calls(f) == old(calls(f)) + len(s)
+//@   ensures C13 order-args: forall k int :: 0 <= k && k < len(s) ==> arg0(f, old(calls(f)) + k) == k && arg1(f, old(calls(f)) + k) == old(s[k])
+//@   ensures C12 frame: frame()
+//@   ensures C12 fresh: fresh(result)
+//@   loop 0:
+//@     invariant len: len(res) == i
+//@     invariant elems: forall k int :: 0 <= k && k < i ==> res[k] == f(k, old(s[k]))
+//@     invariant calls: calls(f) == old(calls(f)) + i
+//@     invariant args: forall k int :: 0 <= k && k < i ==> arg0(f, old(calls(f)) + k) == k && arg1(f, old(calls(f)) + k) == old(s[k])
+//@     invariant fresh: fresh(res)
+//@     invariant frame: frame()
+
+//@ func Iter
+//@   props C12 C13
+//@   panics never
+//@   ensures C13 order: calls(action) == old(calls(action)) + len(s)
+//@   ensures C13 order-args: forall k int :: 0 <= k && k < len(s) ==> arg(action, old(calls(action)) + k) == old(s[k])
+//@   ensures C12 frame: frame()
+//@   loop 0 index i:
+//@     invariant calls: calls(action) == old(calls(action)) + i
+//@     invariant args: forall k int :: 0 <= k && k < i ==> arg(action, old(calls(action)) + k) == old(s[k])
+//@     invariant frame: frame()
+
+//@ func Filter
+//@   props C12 C13
+//@   ghost idx map[int]int    -- idx[k]: source index of result[k]
+//@   ghost inv map[int]int    -- inv[j]: position in the result of source index j, when kept
+//@   panics never
+//@   ensures C13 sub: forall k int :: 0 <= k && k < len(result) ==> 0 <= idx[k] && idx[k] < len(s) && result[k] == old(s[idx[k]]) && pred(old(s[idx[k]]))
+//@   ensures C13 order: forall k int, l int :: 0 <= k && k < l && l < len(result) ==> idx[k] < idx[l]
+//@   ensures C13 complete: forall j int :: 0 <= j && j < len(s) && pred(old(s[j])) ==> 0 <= inv[j] && inv[j] < len(result) && idx[inv[j]] == j
+//@   ensures C12 frame: frame()
+//@   ensures C12 fresh: fresh(result)
+//@   loop 0 index i:
+//@     invariant sub: forall k int :: 0 <= k && k < len(res) ==> 0 <= idx[k] && idx[k] < i && res[k] == old(s[idx[k]]) && pred(old(s[idx[k]]))
+//@     invariant order: forall k int, l int :: 0 <= k && k < l && l < len(res) ==> idx[k] < idx[l]
+//@     invariant complete: forall j int :: 0 <= j && j < i && pred(old(s[j])) ==> 0 <= inv[j] && inv[j] < len(res) && idx[inv[j]] == j
+//@     invariant fresh: fresh(res)
+//@     invariant frame: frame()
+//@   at before call append#0: idx[len(res)] = i
+//@   at before call append#0: inv[i] = len(res)
+
+//@ func Sort
+//@   props C12 C13
+//@   ghost p map[int]int
+//@   panics never
+//@   ensures C13 len: len(result) == len(s)
+//@   ensures C13 perm: forall k int :: 0 <= k && k < len(s) ==> 0 <= p[k] && p[k] < len(s) && result[k] == old(s[p[k]])
+//@   ensures C13 perm-inj: forall k int, l int :: 0 <= k && k < l && l < len(s) ==> p[k] != p[l]
+//@   ensures C13 ascending: forall k int, l int :: 0 <= k && k < l && l < len(s) ==> !lt(result[l], result[k])
+//@   ensures C12 frame: frame()
+//@   ensures C12 fresh: fresh(result)
+//@   at after call slices.SortFunc#0: p = c_p
+
+//@ func SortBy
+//@   props C12 C13
+//@   ghost p map[int]int
+//@   panics never
+//@   ensures C13 len: len(result) == len(s)
+//@   ensures C13 perm: forall k int :: 0 <= k && k < len(s) ==> 0 <= p[k] && p[k] < len(s) && result[k] == old(s[p[k]])
+//@   ensures C13 perm-inj: forall k int, l int :: 0 <= k && k < l && l < len(s) ==> p[k] != p[l]
+//@   ensures C13 ascending: forall k int, l int :: 0 <= k && k < l && l < len(s) ==> !lt(proj(result[l]), proj(result[k]))
+//@   ensures C12 frame: frame()
+//@   ensures C12 fresh: fresh(result)
+//@   at after call slices.SortFunc#0: p = c_p
+
+//@ func Zip
+//@   props C12 C13
+//@   panics iff len(s1) != len(s2)
+//@   ensures C13 len: len(result) == len(s1)
+//@   ensures C13 elems: forall k int :: 0 <= k && k < len(s1) ==> result[k].E0 == old(s1[k]) && result[k].E1 == old(s2[k])
+//@   ensures C12 frame: frame()
+//@   ensures C12 fresh: fresh(result)
+//@   loop 0:
+//@     invariant len: len(ret) == i
+//@     invariant samelen: len(s1) == len(s2)
+//@     invariant elems: forall k int :: 0 <= k && k < i ==> ret[k].E0 == old(s1[k]) && ret[k].E1 == old(s2[k])
+//@     invariant fresh: fresh(ret)
+//@     invariant frame: frame()
+
+//@ func Forall
+//@   props C12 C13
+//@   ghost n int               -- number of elements examined
+//@   ghost-assume n0: n == 0
+//@   panics never
+//@   returns forall k int :: 0 <= k && k < len(s) ==> pred(old(s[k]))
+//@   ensures C13 scan: calls(pred) == old(calls(pred)) + n && 0 <= n && n <= len(s)
+//@   ensures C13 scan-args: forall k int :: 0 <= k && k < n ==> arg(pred, old(calls(pred)) + k) == old(s[k])
+//@   ensures C13 scan-stop: (forall k int :: 0 <= k && k < n - 1 ==> pred(old(s[k]))) && (result ==> n == len(s)) && (!result ==> !pred(old(s[n-1])))
+//@   ensures C12 frame: frame()
+//@   loop 0 index i:
+//@     invariant all: forall k int :: 0 <= k && k < i ==> pred(old(s[k]))
+//@     invariant calls: calls(pred) == old(calls(pred)) + i
+//@     invariant n: n == i
+//@     invariant args: forall k int :: 0 <= k && k < i ==> arg(pred, old(calls(pred)) + k) == old(s[k])
+//@     invariant frame: frame()
+//@   at after call pred#0: n = i + 1
+
+//@ func Forany
+//@   props C12 C13
+//@   ghost n int
+//@   panics never
+//@   returns exists k int :: 0 <= k && k < len(s) && pred(old(s[k]))
+//@   ensures C13 scan: calls(pred) == old(calls(pred)) + n && 0 <= n && n <= len(s)
+//@   ensures C13 scan-args: forall k int :: 0 <= k && k < n ==> arg(pred, old(calls(pred)) + k) == old(s[k])
+//@   ensures C13 scan-stop: (forall k int :: 0 <= k && k < n - 1 ==> !pred(old(s[k]))) && (!result ==> n == len(s)) && (result ==> pred(old(s[n-1])))
+//@   ensures C12 frame: frame()
+//@   ghost-assume n0: n == 0
+//@   loop 0 index i:
+//@     invariant none: forall k int :: 0 <= k && k < i ==> !pred(old(s[k]))
+//@     invariant calls: calls(pred) == old(calls(pred)) + i
+//@     invariant n: n == i
+//@     invariant args: forall k int :: 0 <= k && k < i ==> arg(pred, old(calls(pred)) + k) == old(s[k])
+//@     invariant frame: frame()
+//@   at after call pred#0: n = i + 1
+
+//@ func PushHead
+//@   props C12 C13
+//@   panics never
+//@   ensures C13 len: len(result) == len(s) + 1
+//@   ensures C13 head: result[0] == elem
+//@   ensures C13 rest: forall k int :: 0 <= k && k < len(s) ==> result[k+1] == old(s[k])
+//@   ensures C12 frame: frame()
+//@   ensures C12 fresh: fresh(result)
+
+//@ func Collect
+//@   props C12 C13
+//@   ghost offs map[int]int   -- offs[j]: where f(ss[j]) starts in the result
+//@   ghost-assume offs0: offs[0] == 0
+//@   panics never
+//@   ensures C13 total: len(result) == offs[len(ss)]
+//@   ensures C13 offsets: forall j int :: 0 <= j && j < len(ss) ==> offs[j+1] == offs[j] + len(f(old(ss[j])))
+//@   ensures C13 elems: forall j int, k int :: 0 <= j && j < len(ss) && 0 <= k && k < len(f(old(ss[j]))) ==> result[offs[j] + k] == f(old(ss[j]))[k]
+//@   ensures C13 order: calls(f) == old(calls(f)) + len(ss)
+//@   ensures C13 order-args: forall k int :: 0 <= k && k < len(ss) ==> arg(f, old(calls(f)) + k) == old(ss[k])
+//@   ensures C12 frame: frame()
+//@   ensures C12 fresh: fresh(result)
+//@   loop 0 index i:
+//@     invariant total: len(res) == offs[i] && offs[0] == 0
+//@     invariant offsets: forall j int :: 0 <= j && j < i ==> offs[j+1] == offs[j] + len(f(old(ss[j])))
+//@     invariant bound: forall j int :: 0 <= j && j <= i ==> 0 <= offs[j] && offs[j] <= offs[i]
+//@     invariant elems: forall j int, k int :: 0 <= j && j < i && 0 <= k && k < len(f(old(ss[j]))) ==> res[offs[j] + k] == f(old(ss[j]))[k]
+//@     invariant calls: calls(f) == old(calls(f)) + i
+//@     invariant args: forall k int :: 0 <= k && k < i ==> arg(f, old(calls(f)) + k) == old(ss[k])
+//@     invariant fresh: fresh(res)
+//@     invariant frame: frame()
+//@   at before call append#0: offs[i+1] = len(res) + len(one)
+
+//@ func Concat
+//@   props C12 C13
+//@   ghost offs map[int]int
+//@   ghost-assume offs0: offs[0] == 0
+//@   panics never
+//@   ensures C13 total: len(result) == offs[len(ss)]
+//@   ensures C13 offsets: forall j int :: 0 <= j && j < len(ss) ==> offs[j+1] == offs[j] + len(old(ss[j]))
+//@   ensures C13 elems: forall j int, k int :: 0 <= j && j < len(ss) && 0 <= k && k < len(old(ss[j])) ==> result[offs[j] + k] == old(ss[j][k])
+//@   ensures C12 frame: frame()
+//@   ensures C12 fresh: fresh(result)
+//@   loop 0 index i:
+//@     invariant total: len(res) == offs[i] && offs[0] == 0
+//@     invariant offsets: forall j int :: 0 <= j && j < i ==> offs[j+1] == offs[j] + len(old(ss[j]))
+//@     invariant bound: forall j int :: 0 <= j && j <= i ==> 0 <= offs[j] && offs[j] <= offs[i]
+//@     invariant elems: forall j int, k int :: 0 <= j && j < i && 0 <= k && k < len(old(ss[j])) ==> res[offs[j] + k] == old(ss[j][k])
+//@     invariant fresh: fresh(res)
+//@     invariant frame: frame()
+//@   at before call append#0: offs[i+1] = len(res) + len(s)
+
+//@ func Append
+//@   props C12 C13
+//@   panics never
+//@   ensures C13 len: len(result) == len(s1) + len(s2)
+//@   ensures C13 first: forall k int :: 0 <= k && k < len(s1) ==> result[k] == old(s1[k])
+//@   ensures C13 second: forall k int :: 0 <= k && k < len(s2) ==> result[len(s1) + k] == old(s2[k])
+//@   ensures C12 frame: frame()
+//@   ensures C12 fresh: fresh(result)
+
+//@ func Distinct
+//@   props C12 C13
+//@   ghost idx map[int]int    -- idx[k]: source index of result[k] (its first occurrence)
+//@   ghost pos map[T]int      -- pos[v]: position of value v in the result
+//@   panics never
+//@   ensures C13 sub: forall k int :: 0 <= k && k < len(result) ==> 0 <= idx[k] && idx[k] < len(ss) && result[k] == old(ss[idx[k]])
+//@   ensures C13 order: forall k int, l int :: 0 <= k && k < l && l < len(result) ==> idx[k] < idx[l]
+//@   ensures C13 first: forall k int, j int :: 0 <= k && k < len(result) && 0 <= j && j < idx[k] ==> old(ss[j]) != result[k]
+//@   ensures C13 complete: forall j int :: 0 <= j && j < len(ss) ==> 0 <= pos[old(ss[j])] && pos[old(ss[j])] < len(result) && result[pos[old(ss[j])]] == old(ss[j])
+//@   ensures C13 distinct: forall k int, l int :: 0 <= k && k < l && l < len(result) ==> result[k] != result[l]
+//@   ensures C12 frame: frame()
+//@   ensures C12 fresh: fresh(result)
+//@   loop 0 index i:
+//@     invariant sub: forall k int :: 0 <= k && k < len(res) ==> 0 <= idx[k] && idx[k] < i && res[k] == old(ss[idx[k]])
+//@     invariant order: forall k int, l int :: 0 <= k && k < l && l < len(res) ==> idx[k] < idx[l]
+//@     invariant first: forall k int, j int :: 0 <= k && k < len(res) && 0 <= j && j < idx[k] ==> old(ss[j]) != res[k]
+//@     invariant set-in: forall v T :: has(set, v) ==> 0 <= pos[v] && pos[v] < len(res) && res[pos[v]] == v
+//@     invariant set-pos: forall k int :: 0 <= k && k < len(res) ==> has(set, res[k]) && pos[res[k]] == k
+//@     invariant seen: forall j int :: 0 <= j && j < i ==> has(set, old(ss[j]))
+//@     invariant setref: set != 0 && set < next
+//@     invariant fresh: fresh(res)
+//@     invariant frame: frame()
+//@   at before call append#0: idx[len(res)] = i
+//@   at before call append#0: pos[e] = len(res)
+
+//@ func TryFind
+//@   props C12 C13
+//@   ghost w int               -- index of the element found
+//@   panics never
+//@   ensures C13 found: result.E1 ==> 0 <= w && w < len(ss) && result.E0 == old(ss[w]) && pred(old(ss[w])) && (forall k int :: 0 <= k && k < w ==> !pred(old(ss[k])))
+//@   ensures C13 notfound: !result.E1 ==> (forall k int :: 0 <= k && k < len(ss) ==> !pred(old(ss[k])))
+//@   ensures C13 scan: forall k int :: 0 <= k && k < calls(pred) - old(calls(pred)) ==> arg(pred, old(calls(pred)) + k) == old(ss[k])
+//@   ensures C13 scan-len: (result.E1 ==> calls(pred) == old(calls(pred)) + w + 1) && (!result.E1 ==> calls(pred) == old(calls(pred)) + len(ss))
+//@   ensures C12 frame: frame()
+//@   loop 0 index i:
+//@     invariant none: forall k int :: 0 <= k && k < i ==> !pred(old(ss[k]))
+//@     invariant calls: calls(pred) == old(calls(pred)) + i
+//@     invariant args: forall k int :: 0 <= k && k < i ==> arg(pred, old(calls(pred)) + k) == old(ss[k])
+//@     invariant frame: frame()
+//@   at before call frt.NewTuple2#0: w = i
+
+//@ func Fold
+//@   props C12 C13
+//@   ghost acc map[int]S       -- acc[k]: the state after folding the first k elements
+//@   ghost-assume acc0: acc[0] == iniS
+//@   panics never
+//@   ensures C13 left-fold: acc[0] == iniS && (forall k int :: 0 <= k && k < len(ss) ==> acc[k+1] == folder(acc[k], old(ss[k])))
+//@   ensures C13 result: result == acc[len(ss)]
+//@   ensures C13 order: calls(folder) == old(calls(folder)) + len(ss)
+//@   ensures C13 order-args: forall k int :: 0 <= k && k < len(ss) ==> arg1(folder, old(calls(folder)) + k) == old(ss[k]) && arg0(folder, old(calls(folder)) + k) == acc[k]
+//@   ensures C12 frame: frame()
+//@   loop 0 index i:
+//@     invariant cur: stat == acc[i] && acc[0] == iniS
+//@     invariant steps: forall k int :: 0 <= k && k < i ==> acc[k+1] == folder(acc[k], old(ss[k]))
+//@     invariant calls: calls(folder) == old(calls(folder)) + i
+//@     invariant args: forall k int :: 0 <= k && k < i ==> arg1(folder, old(calls(folder)) + k) == old(ss[k]) && arg0(folder, old(calls(folder)) + k) == acc[k]
+//@     invariant frame: frame()
+//@   at after call folder#0: acc[i+1] = ret
